@@ -56,7 +56,7 @@ pub fn run_oracle(start: Start, bytes: &[u8], ranges: &[usize]) -> Result<(), Fa
         "C01" | "C02" => {
             let case = Case { start, bytes: bytes.to_vec(), ranges: ranges.to_vec(), layers: vec![], perturb: vec![], kind: "fuzz" };
             if id == "C01" {
-                crate::props::c01::c01_check(&case, &mut ctx)
+                crate::props::c01::c01_check_asan(&case, &mut ctx)
             } else {
                 crate::props::c01::c02_check(&case, &mut ctx)
             }
